@@ -79,7 +79,7 @@ def leaks(output, ndl):
     return found
 
 
-ORIGINS = ["dict", "dict+extras", "dict-odd", "dict-d-only", "native", "pem", "der"]
+ORIGINS = ["dict", "dict+extras", "dict-odd", "dict-d-only", "native", "pem", "der", "pem-key-pair-file"]
 
 
 def build(kind, origin):
@@ -107,6 +107,15 @@ def build(kind, origin):
         return A.jkey(dict(reversed(list({**jwk, "x5c": ["AAAA"], "alg": "X"}.items()))), "dict"), jwk
     if kty == "oct":
         return A.jkey(jwk, "bytes"), jwk
+    if origin == "pem-key-pair-file":
+        # a file holding the PUBLIC KEY block followed by the PRIVATE KEY block of the same key (what `openssl pkey -pubout >> key.pem` leaves):
+        # the library reads the first block and has a public-only key; the text it was given holds the private one all the same
+        from cryptography.hazmat.primitives import serialization as ser
+        from joserfc.jwk import RSAKey, ECKey, OKPKey
+        obj = rjwk.load(jwk, private=True)
+        text = obj.public_key().public_bytes(ser.Encoding.PEM, ser.PublicFormat.SubjectPublicKeyInfo) + \
+            obj.private_bytes(ser.Encoding.PEM, ser.PrivateFormat.PKCS8, ser.NoEncryption())
+        return {"RSA": RSAKey, "EC": ECKey, "OKP": OKPKey}[kty].import_key(text), jwk
     return A.jkey(jwk, origin), jwk
 
 
@@ -153,7 +162,7 @@ def h_outputs(ctx):
     if op == "private-export-from-public":
         if kty == "oct":
             return Outcome("n/a", [], nontrivial=None)
-        pub = A.jkey(rjwk.public_of(jwk), "dict" if origin.startswith("dict") else origin)
+        pub = key if origin == "pem-key-pair-file" else A.jkey(rjwk.public_of(jwk), "dict" if origin.startswith("dict") else origin)
         pubs_declared = [A.jkey({**rjwk.public_of(jwk), "use": u}, "dict") for u in ("enc", "sig")]
         for u, pk in zip(("enc", "sig"), pubs_declared):
             for pos in ("alone", "after a private key"):
